@@ -188,6 +188,113 @@ def check_inverse_roundtrip(case):
                    key=[p, io, case["pseed"], case["n"]], labels=_plabels(p, f"io-{io}"), evals=n)
 
 
+# ---- 1b. the same object re-parameterised ------------------------------------------------
+
+
+def gen_reparam(tier):
+    @st.composite
+    def strat(draw):
+        dim = draw(st.sampled_from([2, 3]))
+        n = draw(st.integers(2, 4))
+        ps = [draw(affine_params(dims=(dim,))) for _ in range(n)]
+        return {"ps": ps, "pseed": draw(st.integers(0, 2**20)),
+                "use": draw(st.lists(st.sampled_from(["forward", "inverse", "both"]), min_size=n, max_size=n))}
+
+    return strat()
+
+
+def _set_T(T, p):
+    tr = np.array(p["translation"], dtype=float)
+    ang = np.array(p["angles"], dtype=float)
+    if p.get("setter", "params") == "vector":
+        T.isometry = bool(p["isometry"])
+        vec = np.concatenate([tr, ang]) if p["isometry"] else np.concatenate([tr, [p["scaling"]], ang])
+        T.set_parameters_as_vector(vec)
+    else:
+        T.set_parameters(tr, float(p["scaling"]), ang)
+
+
+def check_reparametrised(case):
+    """One AffineTransformation object given several parameter sets in a row: after every
+    re-parameterisation forward and inverse evaluation agree with a fresh object holding the same
+    parameters, and inverse(T(x)) = x for the *current* parameters."""
+    ps = case["ps"]
+    dim = ps[0]["dim"]
+    T = darsia.AffineTransformation(dim)
+    x = _points(dim, 5, case["pseed"], scale=50.0)
+    for k, (p, use) in enumerate(zip(ps, case["use"])):
+        _set_T(T, p)
+        F = _build_T(p)
+        tags = _ptags(p, step=k)
+        s = float(p["scaling"])
+        tol = 1e-9 * (1 + np.abs(x).sum(axis=1, keepdims=True) + float(np.abs(p["translation"]).sum())) * max(s, 1 / s)
+        if use in ("forward", "both"):
+            if not np.array_equal(np.asarray(T.call_array(x)), np.asarray(F.call_array(x))):
+                raise Violation("reparam:forward", f"step {k}: forward map of the re-parameterised object differs "
+                                f"from a fresh object with the same parameters", tags)
+        if use in ("inverse", "both"):
+            a, b = np.asarray(T.inverse_array(x)), np.asarray(F.inverse_array(x))
+            if not np.array_equal(a, b):
+                raise Violation("reparam:inverse", f"step {k}: inverse map of the re-parameterised object differs "
+                                f"from a fresh object with the same parameters (max {np.abs(a - b).max():.2e})", tags)
+        y = np.asarray(T.inverse_array(np.asarray(T.call_array(x))), dtype=float)
+        if np.any(np.abs(y - x) > tol):
+            raise Violation("reparam:roundtrip", f"step {k}: inverse(T(x)) != x after re-parameterising the same "
+                            f"object (parameters {p['translation']}, {s}, {p['angles']})", tags)
+    return Outcome(True, [ps, case["use"]], (f"dim{dim}", f"steps{len(ps)}"), evals=len(ps))
+
+
+# ---- 1c. maps fitted (isometry option) from exact point pairs ----------------------------
+
+
+def gen_fitted(tier):
+    @st.composite
+    def strat(draw):
+        dim = draw(st.sampled_from([2, 2, 3]))
+        shape = [draw(st.integers(3, 8 if dim == 2 else 5)) for _ in range(dim)]
+        vox = [draw(st.sampled_from([0.5, 1.0, 0.25, 0.3, 2.0])) for _ in range(dim)]
+        shift = [draw(st.integers(-3, 3)) for _ in range(dim)]
+        return {"dim": dim, "shape": shape, "vox": vox, "shift": shift,
+                "maker": draw(st.sampled_from(["voxel", "voxel_center"])),
+                "npts": draw(st.integers(dim + 2, 8)), "pseed": draw(st.integers(0, 2**20)),
+                "ctor": draw(st.sampled_from(["AffineCorrection", "CoordinateTransformation"]))}
+
+    return strat()
+
+
+def check_fitted_isometry(case):
+    """An affine correction *fitted* with the isometry option from exact point pairs of the identity
+    or a whole-voxel translation (given as voxels or voxel centres) returns exactly the input / its
+    zero-filled shift.  (Design-time probe: exact in 120 of 120 configurations on the unchanged tree;
+    the pulled-back centres land on source voxel centres, far from any face.)"""
+    dim, shape, vox = case["dim"], case["shape"], case["vox"]
+    rng = np.random.default_rng(case["pseed"])
+    arr = rng.integers(1, 9, size=shape).astype(float)
+    img = darsia.Image(arr.copy(), space_dim=dim, dimensions=[s * v for s, v in zip(shape, vox)], scalar=True)
+    cs = img.coordinatesystem
+    shift = np.array(case["shift"])
+    src = np.array([[int(rng.integers(0, n)) for n in shape] for _ in range(case["npts"])])
+    src[: dim + 1] = np.vstack([np.zeros(dim, int), np.eye(dim, dtype=int) * (np.array(shape) - 1)])
+    dst = src + shift
+    mk = darsia.make_voxel if case["maker"] == "voxel" else darsia.make_voxel_center
+    tags = {"dim": dim, "maker": case["maker"], "ctor": case["ctor"]}
+    if case["ctor"] == "AffineCorrection":
+        corr = darsia.AffineCorrection(cs, cs, mk(src), mk(dst), fit_options={"isometry": True})
+    else:
+        corr = darsia.CoordinateTransformation(cs, cs, mk(src), mk(dst), fit_options={"isometry": True})
+    out = np.asarray(corr(img).img)
+    want = np.zeros_like(arr)
+    sl_dst = tuple(slice(max(0, k), min(n, n + k)) for k, n in zip(shift, shape))
+    sl_src = tuple(slice(max(0, -k), min(n, n - k)) for k, n in zip(shift, shape))
+    want[sl_dst] = arr[sl_src]
+    if out.shape != want.shape or not np.array_equal(out, want):
+        raise Violation(f"fitted-isometry:{case['maker']}", f"{case['ctor']} fitted (isometry) from exact "
+                        f"{case['maker']} pairs of the whole-voxel shift {shift.tolist()} on shape {shape}: result "
+                        f"is not the zero-filled shift (max difference {np.abs(out - want).max() if out.shape == want.shape else 'shape'})", tags)
+    return Outcome(bool(np.any(shift != 0)), case, (f"dim{dim}", case["maker"], case["ctor"],
+                                                    "identity" if not np.any(shift) else "shift"))
+
+
 # ---- 2. rotation_orthonormal ------------------------------------------------------------
 
 
@@ -931,6 +1038,10 @@ PROP = Prop(
     ],
     subs=[
         Sub("inverse_roundtrip", check_inverse_roundtrip, gen=gen_roundtrip, n=_N_PT, shards=_SH4),
+        Sub("reparametrised_object", check_reparametrised, gen=gen_reparam,
+            n={"quick": 1200, "thorough": 30000}, shards=_SH4),
+        Sub("fitted_isometry_exact", check_fitted_isometry, gen=gen_fitted,
+            n={"quick": 300, "thorough": 6000}, shards=_SH4),
         Sub("rotation_orthonormal", check_rotation_orthonormal, gen=gen_rotation, n=_N_PT, shards=_SH4),
         Sub("documented_action", check_documented_action, gen=gen_action, n=_N_PT, shards=_SH4),
         Sub("array_vs_single", check_array_vs_single, gen=gen_array_single, n=_N_PT, shards=_SH4),
